@@ -45,6 +45,12 @@ CHECKS = {
  "C12": dict(cat="exploration", sec="5.12", tech="exhaustive enumeration of QoS-rule lengths, optional-IE subsets and bit-rate octet counts, plus all short tails / prefixes / substitutions under a watchdog in shard processes",
    text="Accept messages built by hand per TS 24.501 8.3.2.1 (every QoS-rules length 0..1000/4000, all 2^9 optional-IE subsets in table order, IE length and value alphabets incl. octets equal to IEIs) and setup-request transfers encoded by the independent refper (every bit-rate octet count, TEID/address alphabets, IE subsets): the extractors must return exactly the encoded address/TEID/UPF; for termination every tail of <=4 octets over 12 symbols, every prefix and every single-octet substitution is run under a 10 s watchdog.",
    note="a panic on malformed input counts as termination (per the property); EstablishPDU's return values are covered by C02"),
+ "C01": dict(cat="model_checking", sec="5.1", tech="explicit-state reference AMF model executed against the real emulator process; deviation-bounded exhaustive enumeration of configuration x AMF choices",
+   text="The unmodified main() and procedures run as a process against an explicit-state reference AMF (written from TS 38.413/24.501/33.501 on independent codecs) over a socketpair; every configuration/AMF-choice vector with <=1 (quick) / <=2 (thorough) deviations is executed; the model must accept every uplink message in its state and end with every UE REGISTERED, the process must exit 0 with the banner. Every model trace is by construction validated against the implementation; states and transitions of the model visited are counted.",
+   note="reference AMF follows the Open5GS flow; Sleep is a no-op in the emulator build (sound because the AMF is reactive and sequential; replayed with real sleeps in C19 thorough); hook: tag verif replaces the SCTP dial by an inherited socket"),
+ "C02": dict(cat="model_checking", sec="5.2", tech="explicit-state reference AMF/SMF model executed against the real emulator process; full product of repetition counts, deviation-bounded assigned values, in-process return values",
+   text="Full product of the five repetition counts in {0..2}^5 (quick) / {0..3}^5 (thorough) plus 16-/20-UE vectors, all <=2-deviation vectors of network-assigned values, and in-process NGSetup+Register+EstablishPDU over the address/TEID product; the model checks prerequisites, identifiers, PSI consistency and range, distinct SUPIs, uplink COUNT uniqueness and MACs on every message and the final state of every UE.",
+   note="AMF keeps the AMF-UE-NGAP-ID across a Service Request and does not check the hard-coded 5G-S-TMSI/ngKSI; the AMF re-activates the UE's session in the ICS request answering a Service Request"),
 }
 
 NOT_YET = {}
